@@ -263,7 +263,7 @@ def tlc_trace(ctx, module, cfg, trace_path, timeout=600, accept="postcondition")
     """Validates one ndjson trace file against a Trace spec.  Returns (accepted, info)."""
     md = tempfile.mkdtemp(prefix="tlcmd.", dir=ctx.workdir)
     args = ["-workers", "1", "-metadir", md, "-config", cfg, module]
-    rc, out = _tlc(args, SPEC, timeout, env={"TRACE": trace_path}, java_opts="-Xmx3g -XX:ParallelGCThreads=2")
+    rc, out = _tlc(args, SPEC, timeout, env={"TRACE": trace_path}, java_opts="-Xmx3g -Xss256m -XX:ParallelGCThreads=2")
     shutil.rmtree(md, ignore_errors=True)
     if rc == 124:
         raise Machinery("TLC timed out validating %s" % trace_path)
@@ -305,7 +305,7 @@ def tlc_trace(ctx, module, cfg, trace_path, timeout=600, accept="postcondition")
         raise Machinery("TLC failed on trace %s:\n%s" % (trace_path, out[-3000:]))
 
 
-def validate_trace_file(ctx, module, cfg, path, start_prefix='{"e":"Cfg"', timeout=900):
+def validate_trace_file(ctx, module, cfg, path, start_prefix='{"e":"Cfg"', timeout=1500):
     """Validates a file of concatenated runs.  Returns (n_runs, n_events, rejected) where rejected is a
     list of dicts {run, lines, at, event, state}; a run is reported only if it is rejected again alone;
     validation continues with the runs after a rejected one."""
